@@ -34,15 +34,15 @@ CLAIMS = {
   level_text="Held on every mutated exchange, hostile stream, limit probe, hostile session and pacing mode explored: no panic attributable to rzmq, buffering within MAXMSGSIZE+header+one read, exact-limit accepted / limit+1 rejected on all six entry points, hostile connection closed while the healthy one keeps its exactly-once stream, never-completing peers disconnected within 3*HANDSHAKE_IVL+1s, slot released. Exploration.",
   level_note="Mutations are random, not coverage-guided; io_uring handshake timing is covered under C20; a panic is attributed to rzmq when its location/backtrace runs through /repo/core or xs_foundation."),
  "C08": dict(
-  technique="offline history checker (multiset, per-pipe order, counters at quiescence) over thousands of short ReadyPipeQueue histories with seeded delays at hooked schedule points; gate-forced check/notified() windows for the Notify users",
+  technique="offline history checker (multiset, per-pipe order, counters at quiescence) over thousands of short ReadyPipeQueue histories with seeded delays at hooked schedule points; gate-forced check/notified() windows for the Notify users; thorough tier repeats the histories under ThreadSanitizer and inside Miri (random preemption, weak-memory emulation, data-race detector)",
   level_text="Held on every history explored: no lost, duplicated or reordered item, counters consistent at quiescence, no consumer asleep with a non-empty pipe outside the ready list; the two Notify waiters complete when the condition becomes true inside the forced window. Exploration of sampled interleavings with widened windows, not enumeration.",
   level_note="The quantifier 'all interleavings' is out of reach for this family; evidence reports how many distinct hook-hit orders were sampled."),
  "C01": dict(
-  technique="offline exactly-once / order / integrity checker over client-boundary histories with self-describing payloads, across randomized socket pairs, transports, HWM / batching options, pacing and first-send moments; session batching branch counters as coverage evidence",
+  technique="offline exactly-once / order / integrity checker over client-boundary histories with self-describing payloads, across randomized socket pairs, transports, HWM / batching options, pacing and first-send moments; session batching branch counters as coverage evidence; thorough tier adds Miri (data-race detector, weak-memory emulation) on tiny inproc histories",
   level_text="Held (apart from the recorded DEALER-egress findings) on every history explored: each accepted message received exactly once, byte-exact, in per-sender order while the monitor showed the connection up. Exploration; sizes up to 1 MiB and HWM x batch combinations are sampled, not swept.",
   level_note="'accepted' = send() returned Ok; loss = still missing after 6 s without progress; scenarios whose monitor reports a disconnect are discarded and counted; a send that stays blocked with nothing lost is left to C14."),
  "C12": dict(
-  technique="reference-model differential monitor on the real SubscriptionTrie with an exhaustive probe set after every operation; concurrent matcher/mutator race monitor with a delay point; end-to-end PUB/SUB history checker with sentinel-delimited quiescent points; publisher-promptness monitor with stalled raw subscribers",
+  technique="reference-model differential monitor on the real SubscriptionTrie with an exhaustive probe set after every operation; concurrent matcher/mutator race monitor with a delay point; end-to-end PUB/SUB history checker with sentinel-delimited quiescent points; publisher-promptness monitor with stalled raw subscribers; thorough tier repeats the race monitor under ThreadSanitizer and inside Miri",
   level_text="Held (apart from the recorded publisher-blocking finding) on every history explored: matches() equals the reference multiset on all 341 probes after every op, never true for a never-covered family under concurrency, SUBs receive exactly the matching publications in order. Exploration with an exhaustive probe set.",
   level_note="Subscription changes are applied only at quiescent points so that 'when the message reaches it' is unambiguous; promptness bound 1 s per send."),
  "C13": dict(
@@ -50,7 +50,7 @@ CLAIMS = {
   level_text="Held (apart from the recorded wait-on-one-full-peer finding) on every history explored: exactly one peer per accepted message, round-robin spread <= 1 + extra sender tasks with all peers ready, no starvation, no duplicate around add/remove. Exploration.",
   level_note="Invariants, not an exact cursor model (unequal shares among partially ready peers are legitimate); the first-peer waiter race is decided under C08."),
  "C02": dict(
-  technique="offline frame-stream checker at the receiving application's boundary (every recv()/recv_multipart() result flattened and parsed at frames without MORE) over randomized multipart shapes, call styles, peer attach/detach events and oversize sends; panic watch including the caller's task",
+  technique="offline frame-stream checker at the receiving application's boundary (every recv()/recv_multipart() result flattened and parsed at frames without MORE) over randomized multipart shapes, call styles, peer attach/detach events and oversize sends; panic watch including the caller's task; reference-model differential monitor of the FrameBatch container (natively and, thorough tier, inside Miri)",
   level_text="Held (apart from the recorded REQ/REP frame-by-frame-read and PUSH frame-by-frame-send findings) on every history explored: the flattened stream is a concatenation of whole sent messages with MORE on all but the last frame, other peers attaching/detaching/dying mid-message change nothing, and over-long messages are refused with an error, never a panic or a truncated delivery. Exploration.",
   level_note="ROUTER.send_multipart receives correctly flagged frames as documented; DEALER senders are paced because DEALER egress ordering is a recorded C01 finding."),
  "C10": dict(
@@ -66,11 +66,11 @@ CLAIMS = {
   level_text="Held (apart from the recorded DEALER-egress findings) on every (pair, transport, HWM, timeout) explored: SNDTIMEO/RCVTIMEO 0 fail at once with would-block, T>0 fail within [T, T+2 s] with timeout/would-block, -1 does not fail while observed and completes once the peer reads, the accepted count stays under the HWM bound, and nothing refused is delivered later. Exploration with generous time bounds.",
   level_note="A timing regression smaller than the bounds (15 ms early, 2 s late) passes; the -1 observation lasts 3 s in quick and 35 s in thorough (one code path substitutes 30 s)."),
  "C15": dict(
-  technique="C01 integrity/completeness oracle at the receiver of a sender that closes with a given LINGER, plus wall-clock monitor of close()/term()",
+  technique="C01 integrity/completeness oracle at the receiver of a sender that closes with a given LINGER (including bursts that had settled on the wire before the close, towards a late or slow reader with a small RCVHWM), plus wall-clock monitor of close()/term()",
   level_text="Held (apart from recorded findings) on every (sender, transport, LINGER, queued depth, close style, reader pace) explored: nothing truncated, corrupt or duplicated arrives, everything accepted arrives when LINGER is -1 or 10 s, LINGER 0 closes promptly and close/term never outlast LINGER by more than the slack. Exploration with generous time bounds.",
   level_note="'Ample' LINGER is 10 s for at most 20 MB over loopback; PUB completeness is not required; DEALER loss/reorder is recorded under C01."),
  "C16": dict(
-  technique="end-of-history assertion monitor over chaos histories (blocked sends/recvs, connect retries, peers stalled mid-handshake, concurrent close/term): return times, panic hook, in-flight call ages, re-bind, live-actor gauge (hook), tokio alive tasks, /proc/self/fd",
+  technique="end-of-history assertion monitor over chaos histories (blocked sends/recvs, connect retries, peers stalled mid-handshake, concurrent close/term): return times, panic hook, in-flight call ages, re-bind, live-actor gauge (hook), tokio alive tasks, /proc/self/fd; close()-only histories followed by listeners on the closed socket's old targets; ThreadSanitizer shards in the thorough tier",
   level_text="Held on every chaos history explored: close()/term() return within 30 s and not via term's internal 10 s timeout, no panic, no API call stays in flight for 2 s after term, endpoints of closed binders can be bound again, live actors 0, no inproc names, task and fd counts back to their pre-history values. Exploration of sampled schedules.",
   level_note="Baselines for tasks/fds are taken inside the same runtime just before each history; operations that keep succeeding after close are counted, not judged."),
  "C17": dict(
